@@ -410,6 +410,13 @@ func RefQuery(op Op, data []store.Series, lookbackMs int64) *Outcome {
 // RefQueryPerm: the reference engine over a storage that returns series in a seeded permutation
 // (perm != 0); used to find out whether the reference's own answer depends on input order.
 func RefQueryPerm(op Op, data []store.Series, lookbackMs int64, perm int64) *Outcome {
+	return refOnLB(op, store.New(data, store.Cfg{PermSeed: perm}, true), lookbackMs)
+}
+
+// refOn evaluates op with the reference engine over the given storage.
+func refOn(op Op, st *store.Store) *Outcome { return refOnLB(op, st, op.Eng.LookbackMs) }
+
+func refOnLB(op Op, st *store.Store, lookbackMs int64) *Outcome {
 	o := &Outcome{}
 	defer func() {
 		if p := recover(); p != nil {
@@ -417,7 +424,6 @@ func RefQueryPerm(op Op, data []store.Series, lookbackMs int64, perm int64) *Out
 		}
 	}()
 	ng := promql.NewEngine(promOpts(lookbackMs, nil))
-	st := store.New(data, store.Cfg{PermSeed: perm}, true)
 	var qopts *promql.QueryOpts
 	if op.QLookbackMs > 0 {
 		qopts = &promql.QueryOpts{LookbackDelta: time.Duration(op.QLookbackMs) * time.Millisecond}
